@@ -60,15 +60,18 @@ def make_detector(kind: str = "ccd", rows: int = 2, cols: int = 3, **geo_kw):
     geo_kw.setdefault("pixel_vert_size", 10.0)
     geo_kw.setdefault("pixel_horz_size", 16.0)
     geo_kw.setdefault("total_thickness", 40.0)
+    def chars():
+        return Characteristics(quantum_efficiency=0.9, charge_to_volt_conversion=1e-6, pre_amplification=10.0,
+                               full_well_capacity=10000.0, adc_bit_resolution=16, adc_voltage_range=(0.0, 10.0))
     if kind == "ccd":
         return CCD(geometry=CCDGeometry(row=rows, col=cols, **geo_kw), environment=env,
-                   characteristics=Characteristics())
+                   characteristics=chars())
     if kind == "cmos":
         return CMOS(geometry=CMOSGeometry(row=rows, col=cols, **geo_kw), environment=env,
-                    characteristics=Characteristics())
+                    characteristics=chars())
     if kind == "mkid":
         return MKID(geometry=MKIDGeometry(row=rows, col=cols, **geo_kw), environment=env,
-                    characteristics=Characteristics())
+                    characteristics=chars())
     if kind == "apd":
         return APD(geometry=APDGeometry(row=rows, col=cols, **geo_kw), environment=env,
                    characteristics=APDCharacteristics(roic_gain=1.0, avalanche_gain=2.0,
